@@ -220,6 +220,15 @@ func (c *fn) call(call *ast.CallExpr) cx {
 		as = append(as, c.pointee(recvE))
 		nguard = 1
 	}
+	if fi.effect {
+		if !c.effect {
+			panic(needEffect{})
+		}
+		if c.noEffect > 0 {
+			c.fail(call, "%s acts on the outside world and is called inside a function literal", fi.label)
+		}
+		as = append(as, cx{s: c.nameOf(c.worldObj)})
+	}
 	for i, p := range fi.params {
 		a := args[i]
 		if a == nil && variadicPack {
@@ -265,7 +274,7 @@ func (c *fn) call(call *ast.CallExpr) cx {
 			}
 			as = append(as, cx{s: c.nameOf(c.objOf(tgt))}) // the variable holds the map / the pointee
 		case p.asValue:
-			if _, isPtr := c.typeOf(a).(*types.Pointer); isPtr || c.isNilExpr(a) {
+			if _, isPtr := c.typeOf(a).(*types.Pointer); isPtr || c.isNilExpr(a) || c.kindOf(a) == kNilable {
 				as = append(as, c.pointee(a))
 			} else {
 				as = append(as, c.expr(a)) // implicit &x of a method call
@@ -342,6 +351,9 @@ func (c *fn) conversion(call *ast.CallExpr, to types.Type) cx {
 	}
 	fk := c.kindOf(a)
 	switch {
+	case tk == kError || tk == kAny || tk == kNilable:
+		// a conversion to an interface type is the implicit conversion made explicit
+		return c.exprAs(a, to)
 	case tk == kString && fk == kString, tk == kInt && fk == kInt, tk == kBool && fk == kBool:
 		return c.expr(a)
 	case tk == kSlice && fk == kString && isByteSlice(to):
@@ -571,6 +583,29 @@ func (c *fn) errorValue(e ast.Expr) cx {
 	if u, ok := e.(*ast.UnaryExpr); ok && u.Op == token.AND {
 		e = unparen(u.X)
 		star = "*"
+	}
+	if tag, ok := c.localErrIdentity(e); ok {
+		// a local error-struct variable with an identity of its own (Target.LocalErrorIdentity)
+		n, _ := c.typeOf(e).(*types.Named)
+		if n == nil || !implementsError(n) || c.g.kind(n, c.sub) != kStruct {
+			c.fail(e, "LocalErrorIdentity: %s is not of an error struct type", tag)
+		}
+		rec := c.g.record(n)
+		msg := `""`
+		for _, f := range rec.fields {
+			if f.goName == "Msg" && c.g.kind(f.typ, nil) == kString {
+				msg = "(" + f.name + " " + "%s" + ")"
+			}
+		}
+		uw := c.unwrapField(e, n)
+		return c.lift([]cx{c.expr(e)}, func(v []string) string {
+			m := strings.Replace(msg, "%s", v[0], 1)
+			w := "[]"
+			if uw != "" {
+				w = "(olist (" + rec.field(c.g, uw).name + " " + v[0] + "))"
+			}
+			return "(Some (Err " + CStr(star+tag) + " " + m + " " + w + "))"
+		})
 	}
 	lit, ok := e.(*ast.CompositeLit)
 	if !ok {
@@ -1041,7 +1076,11 @@ func init() {
 	goLibCalls["errors.Is"] = func(c *fn, call *ast.CallExpr, _ ast.Expr) cx {
 		name, ok := c.sentinel(call.Args[1])
 		if !ok {
-			c.fail(call, "errors.Is is only supported with a package-level sentinel (var ErrX = errors.New(..)) as target")
+			if _, isLocal := c.localErrIdentity(call.Args[1]); isLocal {
+				tgt := c.exprAs(call.Args[1], types.Universe.Lookup("error").Type())
+				return c.lift([]cx{c.expr(call.Args[0]), tgt}, func(v []string) string { return "(err_is " + v[0] + " " + v[1] + ")" })
+			}
+			c.fail(call, "errors.Is is only supported with a package-level sentinel (var ErrX = errors.New(..)) or a local declared in LocalErrorIdentity as target")
 		}
 		c.g.note("errors.Is / errors.As follow Unwrap chains only (custom Is / As methods are not modelled)")
 		return c.lift([]cx{c.expr(call.Args[0])}, func(v []string) string { return "(err_is " + v[0] + " " + name + ")" })
@@ -1209,4 +1248,42 @@ func isByteSlice(t types.Type) bool {
 	}
 	b, ok := e.Underlying().(*types.Basic)
 	return ok && (b.Kind() == types.Uint8)
+}
+
+// localErrIdentity: e is a local variable listed in Target.LocalErrorIdentity;
+// returns the typ that identifies its value ("<pkg>.<Type>#<var>").
+func (c *fn) localErrIdentity(e ast.Expr) (string, bool) {
+	e = unparen(e)
+	if ce, ok := e.(*ast.CallExpr); ok && len(ce.Args) == 1 {
+		// the conversion error(x)
+		if tv, ok := c.pkg.TypesInfo.Types[ce.Fun]; ok && tv.IsType() && types.Identical(tv.Type, types.Universe.Lookup("error").Type()) {
+			e = unparen(ce.Args[0])
+		}
+	}
+	id, ok := e.(*ast.Ident)
+	if !ok || c.opts == nil {
+		return "", false
+	}
+	listed := false
+	for _, n := range c.opts.LocalErrorIdentity {
+		if n == id.Name {
+			listed = true
+		}
+	}
+	o := c.objOf(id)
+	if !listed || o == nil || !c.isLocal(o) {
+		return "", false
+	}
+	if len(c.assignPositions()[o]) > 0 {
+		c.fail(e, "LocalErrorIdentity: %s is assigned again after its declaration", id.Name)
+	}
+	t := resolve(o.Type(), c.sub)
+	name := "error"
+	if n, ok := t.(*types.Named); ok && n.Obj().Pkg() != nil {
+		name = n.Obj().Pkg().Name() + "." + n.Obj().Name()
+	}
+	c.assumes = append(c.assumes, fmt.Sprintf("no other error that Go's == finds equal to the value of %s (same type, identical message text) reaches a comparison with it (%s)",
+		id.Name, c.g.L.pos(o.Pos(), c.pkg)))
+	c.g.note(c.fi.label + ": the error held by local " + id.Name + " has an identity of its own (option LocalErrorIdentity): comparisons with it assume that no other equal error exists")
+	return name + "#" + id.Name, true
 }
